@@ -602,6 +602,14 @@ func buildBig(c *pbt.C, variant int) (*View, error) {
 				fmt.Fprintf(os.Stderr, "busy send %d.%d: %v\n", m, k, err)
 			}
 		}
+		if m%9 == 4 {
+			// a (legal) zero-amount send naming a token standard nobody ever issued: lists and lookups that cover it,
+			// its receive and the unreceived entry answer like for any other block
+			var zts types.ZenonTokenStandard
+			copy(zts[:], types.NewHash([]byte(fmt.Sprintf("never-issued-%d", m))).Bytes()[:10])
+			to := h.Users[c.Pick("big.unkTo", len(h.Users))]
+			_, _ = h.Submit(&nom.AccountBlock{Address: busy, ToAddress: to, TokenStandard: zts, Amount: big.NewInt(0)}, "send naming a never-issued token standard")
+		}
 		// scripted share: tokens, fusions, stakes, sentinels, projects early so that they age
 		switch {
 		case m < 6:
